@@ -665,4 +665,25 @@ theorem srcOk_name {n : ℕ} {g : Gate} (h : SrcOk n g) (hc : isCnot g = false)
     · rw [hk]; decide
     · rw [hk]; decide
 
+/-! ### the converter's post-selection accepts every logical state -/
+
+/-- the post-selection a converted processor carries: one condition `[p, p+1] == 1` per qubit pair a
+post-processed CNOT acts on (moved along with the photons by later SWAPs: always the two rails of a qubit) -/
+def pairPS : List ℕ → PS
+  | [] => .tt
+  | p :: ps => .and (.cond [p, p + 1] .eq 1) (pairPS ps)
+
+theorem pairPS_accepts_logical (L : Layout) (hok : L.ok = true) :
+    ∀ (pairs : List ℕ), (∀ p ∈ pairs, p ∈ L.qubits) → ∀ b : List Bool, b.length = L.qubits.length →
+      (pairPS pairs).eval (encode L b) = true
+  | [], _, _, _ => rfl
+  | p :: ps, hp, b, hb => by
+    have hlog := (isLogical_iff L (encode L b)).1 (encode_isLogical L hok b hb) p (hp p List.mem_cons_self)
+    have ih := pairPS_accepts_logical L hok ps (fun q hq => hp q (List.mem_cons_of_mem _ hq)) b hb
+    simp only [pairPS, PS.eval, Cmp.eval, List.map_cons, List.map_nil, List.sum_cons, List.sum_nil, ih,
+      Bool.and_true]
+    unfold pairAt at hlog
+    simp only [List.getD_eq_getElem?_getD] at hlog
+    simp [hlog]
+
 end PM.C20
